@@ -309,12 +309,14 @@ DocRel(c, pre, post, ret, last) ==
             /\ Len(ncf) = 1 /\ OnlyTouches(pre, post, {f})
 \* ------------------------------------------------------------------------------------------ state machine
 CONSTANTS Depth,      \* number of calls of a program
-          Grid,       \* 0: gamma in {1/2, 1, 2}, epsilon in {0, 1/2};  1: gamma = 2, epsilon = 1/2
+          Grid,       \* 0: gamma in {1/2, 1, 2}, epsilon in {0, 1/2};  1: gamma = 2, epsilon = 1/2;
+                      \* 2: as 0, but every step action offers ONE call drawn at random (for -simulate: TLC's
+                      \*    simulator computes all successors of a state before it picks one)
           DimP, DimE      \* dimensions of the normal forms of the model
 VARIABLES st, prev, last, plast, hist
 vars == <<st, prev, last, plast, hist>>
-Gammas == IF Grid = 0 THEN {<<1, 2>>, <<1, 1>>, <<2, 1>>} ELSE {<<2, 1>>}
-Epsilons == IF Grid = 0 THEN {<<0, 1>>, <<1, 2>>} ELSE {<<1, 2>>}
+Gammas == IF Grid = 1 THEN {<<2, 1>>} ELSE {<<1, 2>>, <<1, 1>>, <<2, 1>>}
+Epsilons == IF Grid = 1 THEN {<<1, 2>>} ELSE {<<0, 1>>, <<1, 2>>}
 Generic == {1, 3, 6}                 \* functions given to the steps that take any function
 Starts(ls) == IF ls = <<>> THEN {"L1", "CB"} ELSE {"L1", "CB", "R1"}
 Others(ls) == IF ls = <<>> THEN {"L1", "CB"} ELSE {"L1", "CB", "R2"}
@@ -340,7 +342,8 @@ BogusCalls == {Call("inexact_gradient_step", "bogus", 1, 0, "L1", "-", <<>>, <<1
                Call("inexact_proximal_step", "bogus", 3, 0, "L1", "-", <<>>, <<1, 1>>, <<0, 1>>)}
 Init == /\ st = InitSt(DimP, DimE, 2, 0) /\ prev = InitSt(DimP, DimE, 2, 0) /\ last = <<>> /\ plast = <<>> /\ hist = <<>>
 Fire(step) ==
-            /\ \E c \in {x \in Calls(last) : x.step = step} : LET r == Apply(c, st, last) IN
+            /\ \E c \in (LET S == {x \in Calls(last) : x.step = step} IN IF Grid = 2 THEN {RandomElement(S)} ELSE S) :
+                  LET r == Apply(c, st, last) IN
                   /\ st' = r.st /\ last' = r.ret /\ prev' = st /\ plast' = last /\ hist' = Append(hist, c)
 DoProx == Len(hist) < Depth /\ Fire("proximal_step")
 DoInGrad == Len(hist) < Depth /\ Fire("inexact_gradient_step")
